@@ -1,5 +1,6 @@
 CONSTANTS
   Genesis = 0
+  Unavailable = 999999
 SPECIFICATION TraceSpec
 INVARIANTS StoreInv ReportBad
 POSTCONDITION TraceAccepted
